@@ -184,6 +184,66 @@ impl ProjectType {
 	}
 }
 
+#[cfg(watchexec_verif)]
+impl ProjectType {
+	/// Verification hook: every project type, kept complete by an exhaustive match.
+	#[must_use]
+	pub fn verif_all() -> Vec<Self> {
+		let all = vec![
+			Self::Bazaar,
+			Self::Darcs,
+			Self::Fossil,
+			Self::Git,
+			Self::Mercurial,
+			Self::Pijul,
+			Self::Subversion,
+			Self::Bundler,
+			Self::C,
+			Self::Cargo,
+			Self::Docker,
+			Self::Elixir,
+			Self::Go,
+			Self::Gradle,
+			Self::JavaScript,
+			Self::Leiningen,
+			Self::Maven,
+			Self::Perl,
+			Self::PHP,
+			Self::Pip,
+			Self::V,
+			Self::Zig,
+		];
+		// adding a variant without listing it above fails to compile here
+		for t in &all {
+			match t {
+				Self::Bazaar
+				| Self::Darcs
+				| Self::Fossil
+				| Self::Git
+				| Self::Mercurial
+				| Self::Pijul
+				| Self::Subversion
+				| Self::Bundler
+				| Self::C
+				| Self::Cargo
+				| Self::Docker
+				| Self::Elixir
+				| Self::Go
+				| Self::Gradle
+				| Self::JavaScript
+				| Self::Leiningen
+				| Self::Maven
+				| Self::Perl
+				| Self::PHP
+				| Self::Pip
+				| Self::V
+				| Self::Zig => {}
+			}
+		}
+		all
+	}
+}
+
 /// Traverses the parents of the given path and returns _all_ that are project origins.
 ///
 /// This checks for the presence of a wide range of files and directories that are likely to be
